@@ -47,6 +47,7 @@ type proc struct {
 	defined map[int]bool
 	ndef    int
 	broken  bool
+	hdr     string
 }
 
 // Stats are cumulative per Solver.
@@ -82,13 +83,33 @@ type Solver struct {
 	// CrossEvery, when >0, re-asks every n-th unsat query of the second backend.
 	CrossEvery int
 	nunsat     int
+	// DumpDir, when set, receives a standalone SMT-LIB script for every query
+	// slower than DumpSlowMS.
+	CrossTimeoutMS int
+	DumpDir    string
+	DumpSlowMS int
+	ndump      int
+}
+
+// Script renders a standalone SMT-LIB2 script for the conjunction of asserts.
+func Script(asserts []*Term) string {
+	p := &proc{defined: map[int]bool{}}
+	var b strings.Builder
+	p.defs(&b, asserts)
+	for _, a := range asserts {
+		if !a.IsTrue() {
+			fmt.Fprintf(&b, "(assert %s)\n", a.ref())
+		}
+	}
+	b.WriteString("(check-sat)\n")
+	return b.String()
 }
 
 func NewSolver(ctx *Ctx, backends ...Backend) *Solver {
 	if len(backends) == 0 {
-		backends = []Backend{Z3Old, Z3New, CVC5}
+		backends = []Backend{Z3New, Z3Old, CVC5}
 	}
-	return &Solver{ctx: ctx, backends: backends, procs: map[string]*proc{}, TimeoutMS: 20000,
+	return &Solver{ctx: ctx, backends: backends, procs: map[string]*proc{}, TimeoutMS: 20000, CrossTimeoutMS: 3000,
 		cache: map[string]Result{}, Stats: Stats{PerBE: map[string]*BEStats{}}}
 }
 
@@ -109,7 +130,8 @@ func (p *proc) kill() {
 }
 
 func (s *Solver) start(be Backend) (*proc, error) {
-	cmd := exec.Command(be.Argv[0], be.Argv[1:]...)
+	argv := append([]string(nil), be.Argv...)
+	cmd := exec.Command(argv[0], argv[1:]...)
 	in, err := cmd.StdinPipe()
 	if err != nil {
 		return nil, err
@@ -127,15 +149,13 @@ func (s *Solver) start(be Backend) (*proc, error) {
 	if strings.HasPrefix(be.Name, "cvc5") {
 		hdr += "(set-logic ALL)\n"
 	}
-	if _, err := io.WriteString(p.in, hdr); err != nil {
-		return nil, err
-	}
+	p.hdr = hdr
 	return p, nil
 }
 
 func (s *Solver) get(be Backend) (*proc, error) {
 	p := s.procs[be.Name]
-	if p != nil && (p.broken || p.ndef > 400000) {
+	if p != nil && (p.broken || p.ndef > 50000000) {
 		p.kill()
 		p = nil
 		s.Stats.Restarts++
@@ -270,7 +290,7 @@ func (s *Solver) Check(asserts []*Term, want []*Term) (Result, map[*Term]uint64)
 	var res Result = Unknown
 	var model map[*Term]uint64
 	for i, be := range s.backends {
-		r, m, err := s.checkOn(be, asserts, want)
+		r, m, err := s.checkOn(be, asserts, want, s.TimeoutMS)
 		if err != nil {
 			s.Stats.Errors++
 			if s.Log != nil {
@@ -283,7 +303,7 @@ func (s *Solver) Check(asserts []*Term, want []*Term) (Result, map[*Term]uint64)
 			if r == Unsat && s.CrossEvery > 0 && i+1 < len(s.backends) {
 				s.nunsat++
 				if s.nunsat%s.CrossEvery == 0 {
-					r2, _, err2 := s.checkOn(s.backends[i+1], asserts, nil)
+					r2, _, err2 := s.checkOn(s.backends[i+1], asserts, nil, s.CrossTimeoutMS)
 					if err2 == nil && r2 == Sat {
 						s.Stats.CrossBad++
 					} else if err2 == nil && r2 == Unsat {
@@ -295,6 +315,10 @@ func (s *Solver) Check(asserts []*Term, want []*Term) (Result, map[*Term]uint64)
 		}
 	}
 	s.Stats.Time += time.Since(t0)
+	if s.DumpDir != "" && time.Since(t0) > time.Duration(s.DumpSlowMS)*time.Millisecond {
+		s.ndump++
+		_ = os.WriteFile(fmt.Sprintf("%s/q%04d-%s-%dms.smt2", s.DumpDir, s.ndump, res, time.Since(t0).Milliseconds()), []byte(Script(asserts)), 0o644)
+	}
 	switch res {
 	case Sat:
 		s.Stats.Sat++
@@ -309,7 +333,7 @@ func (s *Solver) Check(asserts []*Term, want []*Term) (Result, map[*Term]uint64)
 	return res, model
 }
 
-func (s *Solver) checkOn(be Backend, asserts []*Term, want []*Term) (Result, map[*Term]uint64, error) {
+func (s *Solver) checkOn(be Backend, asserts []*Term, want []*Term, timeoutMS int) (Result, map[*Term]uint64, error) {
 	p, err := s.get(be)
 	if err != nil {
 		return Unknown, nil, err
@@ -323,13 +347,19 @@ func (s *Solver) checkOn(be Backend, asserts []*Term, want []*Term) (Result, map
 	t0 := time.Now()
 	defer func() { bs.Time += time.Since(t0) }()
 
+	// Every query is a standalone script followed by (reset): the solvers'
+	// one-shot pipelines (preprocessing + bit-blasting) are far faster on these
+	// queries than their incremental push/pop cores.
 	var b strings.Builder
+	p.defined = map[int]bool{}
+	b.WriteString(p.hdr)
+	if strings.HasPrefix(be.Name, "z3") {
+		fmt.Fprintf(&b, "(set-option :timeout %d)\n", timeoutMS)
+	} else {
+		fmt.Fprintf(&b, "(set-option :tlimit-per %d)\n", timeoutMS)
+	}
 	p.defs(&b, asserts)
 	p.defs(&b, want)
-	b.WriteString("(push 1)\n")
-	if strings.HasPrefix(be.Name, "z3") {
-		fmt.Fprintf(&b, "(set-option :timeout %d)\n", s.TimeoutMS)
-	}
 	for _, a := range asserts {
 		if a.IsTrue() {
 			continue
@@ -358,7 +388,7 @@ func (s *Solver) checkOn(be Backend, asserts []*Term, want []*Term) (Result, map
 			return Unknown, nil, lr.err
 		}
 		line = lr.l
-	case <-time.After(time.Duration(s.TimeoutMS+5000) * time.Millisecond):
+	case <-time.After(time.Duration(timeoutMS+5000) * time.Millisecond):
 		p.broken = true
 		p.kill()
 		bs.Unknown++
@@ -413,7 +443,7 @@ func (s *Solver) checkOn(be Backend, asserts []*Term, want []*Term) (Result, map
 			model[w] = vals[i]
 		}
 	}
-	if _, err := io.WriteString(p.in, "(pop 1)\n"); err != nil {
+	if _, err := io.WriteString(p.in, "(reset)\n"); err != nil {
 		p.broken = true
 	}
 	return res, model, nil
